@@ -369,6 +369,63 @@ def gen_registry():
     return fails, rows
 
 
+def gen_wrappers():
+    """`Gen/Wrappers.lean` (Route A by introspection): for every public 1-D method the module-level function of the same name:
+    its parameters (without `x_data`) and the method's, as `name=default` tokens (numbers normalised through float), in order and
+    sorted.  The obligation over it lives in Props/C16."""
+    import importlib
+    import inspect
+    fails, rows = [], []
+
+    def tok(k, v):
+        d = v.default
+        if d is inspect._empty:
+            ds = '<required>'
+        elif isinstance(d, bool) or d is None or isinstance(d, str):
+            ds = repr(d)
+        elif isinstance(d, (int, float)):
+            ds = repr(float(d))
+        else:
+            ds = repr(d)
+        kind = {inspect.Parameter.VAR_KEYWORD: '**', inspect.Parameter.VAR_POSITIONAL: '*'}.get(v.kind, '')
+        return (kind + k + '=' + ds).replace('"', "'").replace('\\', '/')
+    try:
+        from pybaselines import Baseline
+        meths = {n: f for n, f in inspect.getmembers(Baseline, inspect.isfunction) if not n.startswith('_') and hasattr(f, '__wrapped__')}
+        funcs = {}
+        for m in ('whittaker', 'spline', 'polynomial', 'morphological', 'smooth', 'classification', 'misc', 'optimizers'):
+            mod = importlib.import_module('pybaselines.' + m)
+            for n, f in inspect.getmembers(mod, inspect.isfunction):
+                if n in meths and f.__module__ == 'pybaselines.' + m:
+                    funcs[n] = (m, f)
+        for n in sorted(meths):
+            mp = [tok(k, v) for k, v in inspect.signature(meths[n]).parameters.items() if k != 'self']
+            if n in funcs:
+                m, f = funcs[n]
+                fps = inspect.signature(f).parameters
+                fp = [tok(k, v) for k, v in fps.items() if k != 'x_data']
+                rows.append((n, m, True, 'x_data' in fps, fp, mp))
+            else:
+                rows.append((n, '', False, False, [], mp))
+    except Exception as ex:      # noqa: BLE001
+        fails.append(f'Wrappers: introspection failed ({type(ex).__name__}: {ex})')
+
+    def ls(t):
+        return '[' + ', '.join(f'"{k}"' for k in t) + ']'
+
+    def b(v):
+        return 'true' if v else 'false'
+    lines = ['/-! GENERATED on every run of C16 by harness/pbv/translate.py from the imported package — do not edit. -/',
+             'namespace PbVerif.Gen', '',
+             'structure WrapperRow where', '  name : String', '  module : String', '  hasFunction : Bool', '  hasXData : Bool',
+             '  fnParams : List String', '  methParams : List String', '  fnSorted : List String', '  methSorted : List String', 'deriving Repr', '',
+             'def wrappers : List WrapperRow := [']
+    lines.append(',\n'.join(f'  ⟨"{r[0]}", "{r[1]}", {b(r[2])}, {b(r[3])}, {ls(r[4])}, {ls(r[5])}, {ls(sorted(r[4]))}, {ls(sorted(r[5]))}⟩' for r in rows))
+    lines += [']', '', f'def wrappersTranslated : Bool := {b(not fails and bool(rows))}', '', 'end PbVerif.Gen', '']
+    _write('Wrappers.lean', '\n'.join(lines))
+    return fails, rows
+
+
 def regenerate(prop=None):
     fails = []
     fails += gen_consts()
@@ -379,5 +436,8 @@ def regenerate(prop=None):
     # the registry needs one probe call per method: regenerated by the checks whose theorems read it (and by --setup)
     if prop in (None, 'C01', 'C02') or not os.path.exists(os.path.join(common.LEAN, 'PbVerif', 'Gen', 'Registry.lean')):
         f, _ = gen_registry()
+        fails += f
+    if prop in (None, 'C16') or not os.path.exists(os.path.join(common.LEAN, 'PbVerif', 'Gen', 'Wrappers.lean')):
+        f, _ = gen_wrappers()
         fails += f
     return fails
